@@ -235,6 +235,23 @@ theorem source_switch (n : Nat) :
     sourceOf n = (if n > 0 then "uriReadSeekCloser" else "fileReadSeekCloser") ∧ decoderAfterSourceSwitch = true ∧
     urisSeparator = "\n" := ⟨rfl, rfl, rfl⟩
 
+/-! ## round 3: the epilogue of `Run` (deferred function) -/
+
+/-- the deferred function of `Provider.Run` as regenerated (whatever the nesting / order of its tests) is the model's
+`epilogue`: the sink is closed, the source is closed exactly once when `p.Close` is set, a failing `Close` becomes the
+result of a run that ended with nil and is combined with the error of a run that did not (into an error in which
+errors.Is finds neither — xerrors.Errorf with two `%w`) -/
+theorem epilogue_source (hasClose closeFails : Bool) (e : EV) :
+    httpRunDefer hasClose closeFails e = epilogue hasClose closeFails e := by
+  rcases e with ⟨r, c⟩
+  cases hasClose <;> cases closeFails <;> cases r <;> cases c <;> decide
+
+/-- the source is closed by that deferred function only (no other call of the `Close` field in package provider),
+the `defer` stands before every `return` of Run, and NewProvider fills the field: every run that returns has closed
+its source exactly once, after its path ended — with preload on and off -/
+theorem close_sites_source : closeCallsElsewhere = 0 ∧ deferBeforeReturns = true ∧ newProviderSetsClose = true :=
+  ⟨rfl, rfl, rfl⟩
+
 /-! ## round 2: headers (area "c14hdr") -/
 
 section Headers
